@@ -7,6 +7,7 @@ pub mod c02;
 pub mod c03;
 pub mod c04;
 pub mod c20;
+pub mod e2smoke;
 pub mod wvr;
 pub mod c05;
 pub mod scripted;
@@ -57,6 +58,7 @@ pub fn spec(id: &str) -> Option<Spec> {
     "C04" => Some(c04::spec()),
     "C05" => Some(c05::spec()),
     "C20" => Some(c20::spec()),
+    "X01" => Some(e2smoke::spec()),
     _ => None,
   }
 }
@@ -69,6 +71,7 @@ pub fn run(id: &str, tier: &str, ctx: &mut Ctx) -> Check {
     "C04" => c04::run(tier, ctx),
     "C05" => c05::run(tier, ctx),
     "C20" => c20::run(tier, ctx),
+    "X01" => e2smoke::run(tier, ctx),
     _ => panic!("unknown property {id}"),
   }
 }
